@@ -454,6 +454,8 @@ def verify(contract, max_paths=None):
         if ctx.pc and sat_check(ctx.pc) == 'sat' or not ctx.pc:
             res.covers += 1
         for ob in ctx.obligations:
+            if any(ob.name.startswith(pfx) for pfx in getattr(contract, 'ignore', ())):
+                continue      # obligations of clauses this contract does not claim
             base = '%s/%s/%s' % (contract.prop, contract.short(), ob.name)
             k = seen_names.get(base, 0)
             seen_names[base] = k + 1
